@@ -324,20 +324,29 @@ func translate(context Context, args ...Result) (Result, error) {
 	}
 
 	src := args[0].String()
-	old := args[1].String()
-	new := args[2].String()
+	old := []rune(args[1].String())
+	new := []rune(args[2].String())
+	replacements := make(map[rune]int, len(old))
 
-	for i := range old {
-		r := ""
-
-		if i < len(new) {
-			r = string(new[i])
+	for i, r := range old {
+		if _, ok := replacements[r]; !ok {
+			replacements[r] = i
 		}
-
-		src = strings.Replace(src, string(old[i]), r, -1)
 	}
 
-	return String(src), nil
+	ret := strings.Builder{}
+
+	for _, r := range src {
+		i, ok := replacements[r]
+
+		if !ok {
+			ret.WriteRune(r)
+		} else if i < len(new) {
+			ret.WriteRune(new[i])
+		}
+	}
+
+	return String(ret.String()), nil
 }
 
 func boolean(context Context, args ...Result) (Result, error) {
